@@ -203,6 +203,16 @@ Definition all_valid (s : st) (r : sreq) : bool :=
   mem (r_app r) (conss s) && forallb valid_type (r_types r) && opt_in (r_prio r) 0 255 && r_order_ok r &&
   r_flt_ok r && opt_in (r_nt r) 0 4398046511103 && opt_in (r_mult r) 0 255.
 
+(* "the unsubscription of one subscription leaves the subscriptions made with other requests alone".
+   injective_ids = true: the other subscription carries another identifier (what the code guarantees);
+   injective_ids = false: the other subscription was made with a different request (what the property asks for).
+   The identifier of a request is an input of this model (r_key): the code computes it as hash(request), and CPython
+   hashes -1 and -2 alike, so two different requests can carry one identifier (known finding KF-C14-1). *)
+Definition unsubscribe_spares_other_requests_stmt (injective_ids : bool) : Prop :=
+  forall s aid key u v, In u (subs s) -> In v (subs s) -> u_key v = key ->
+    (if injective_ids then u_key u <> u_key v else u_req u <> u_req v) ->
+    In u (subs (st_of (step s (Unsubscribe aid key)))).
+
 (* ============================================================================== *)
 (* driver protocol                                                                   *)
 (* ============================================================================== *)
